@@ -148,12 +148,15 @@ Definition removes (min v : N) : bool :=
 (* (the functions below take `rm min v` = a clean with minimum `min` removes an entry of slot v; `if` instead of
    `&&` where the second operand is expensive: vm_compute evaluates both operands of `&&`)
    the read section of lookup l missed although w had established the key before l began: in a sequential
-   explanation some clean that removes a slot the key may have had sits between them *)
+   explanation a clean c sits between w and l and removes the slot the key then has — the slot established by w
+   itself or by an operation s that may come after w and before c *)
 Definition miss_explained (rm : N -> N -> bool) (h : list hop) (l w : hop) : bool :=
-  match min_list (established_vals (h_key l) h) with
-  | None => true
-  | Some mv => existsb (fun c => is_clean c && rm (h_val c) mv && negb (before c w) && negb (before l c)) h
-  end.
+  existsb (fun c => if is_clean c && negb (before c w) && negb (before l c)
+                    then existsb (fun s => match establishes (h_key l) s with
+                                           | Some v => rm (h_val c) v && negb (before s w) && negb (before c s)
+                                           | None => false
+                                           end) h
+                    else false) h.
 
 Definition miss_ok (rm : N -> N -> bool) (h : list hop) (l : hop) : bool :=
   forallb (fun w => match establishes (h_key l) w with
